@@ -35,6 +35,25 @@ ESTABLISHED_HELPERS = {"_augment_epsilon_transitions", "_bottom_up_step", "_comp
                        "_pruned_compose", "_trim", "_unary_graph", "_update", "update"}
 
 
+def _clone_stmt(st):
+    """a fresh copy of a statement (unparse + parse is an order of magnitude faster than copy.deepcopy on ast nodes)"""
+    new = ast.parse(ast.unparse(st)).body[0]
+    for n in ast.walk(new):
+        if hasattr(n, "lineno"):
+            n.lineno = getattr(st, "lineno", 0)
+            n.end_lineno = getattr(st, "lineno", 0)
+    return new
+
+
+def _clone_expr(e):
+    new = ast.parse(ast.unparse(e), mode="eval").body
+    for n in ast.walk(new):
+        if hasattr(n, "lineno"):
+            n.lineno = getattr(e, "lineno", 0)
+            n.end_lineno = getattr(e, "lineno", 0)
+    return new
+
+
 def _is_docstring(st):
     return isinstance(st, ast.Expr) and isinstance(st.value, ast.Constant) and isinstance(st.value.value, str)
 
@@ -196,7 +215,7 @@ class _Rename(ast.NodeTransformer):
 
     def visit_Name(self, n):
         if n.id in self.exprs and isinstance(n.ctx, ast.Load):
-            return ast.copy_location(copy.deepcopy(self.exprs[n.id]), n)
+            return ast.copy_location(_clone_expr(self.exprs[n.id]), n)
         if n.id in self.names:
             return ast.copy_location(ast.Name(id=self.names[n.id], ctx=n.ctx), n)
         return n
@@ -372,8 +391,8 @@ class _Inliner:
             if not ok:
                 continue
 
-            hstmts = [copy.deepcopy(s) for s in hbody]
-            hret = copy.deepcopy(ret) if ret is not None else None
+            hstmts = [_clone_stmt(s_) for s_ in hbody]
+            hret = _clone_expr(ret) if ret is not None else None
             locals_ = _bound_names(hstmts)
             rebound_params = {p for p in binding if p in locals_}
             caller_names = _names_excluding(fn, None if is_method else callee)
@@ -387,7 +406,7 @@ class _Inliner:
                 else:
                     new = p if (p not in caller_names) else f"{p}__{k}"
                     names[p] = new
-                    asg = ast.Assign(targets=[ast.Name(id=new, ctx=ast.Store())], value=copy.deepcopy(a), lineno=st.lineno,
+                    asg = ast.Assign(targets=[ast.Name(id=new, ctx=ast.Store())], value=_clone_expr(a), lineno=st.lineno,
                                      col_offset=st.col_offset)
                     pre.append(asg)
             direct_target = None
